@@ -114,7 +114,7 @@ func diffNames(a, b string) string {
 }
 
 var bases = []aa.Base{{}, {Comment: " a comment"}, {FileInherit: true}, {NoNewPrivs: true}, {Optional: true, Comment: " because"}, {Comment: " with, comma"},
-	{Comment: " see (bug 12"}, {Comment: " was @{HOME} and \"quoted\""}}
+	{Comment: " see (bug 12"}, {Comment: " was @{HOME} and \"quoted\""}, {Comment: " see @{etc_ro}"}}
 
 func setBase(r aa.Rule, b aa.Base) bool {
 	switch r := r.(type) {
@@ -169,7 +169,7 @@ func isBareFile(r aa.Rule) bool {
 
 func rulesMode(kind string, tier int) int {
 	n := 0
-	for _, r0 := range universe.Of(kind, tier) {
+	for ri, r0 := range universe.Of(kind, tier) {
 		if isBareFile(r0) {
 			// judged once, on its own: whatever surrounds it would only repeat the same finding
 			n++
@@ -183,8 +183,8 @@ func rulesMode(kind string, tier int) int {
 		for bi, b := range bases {
 			r := universe.Clone(r0)
 			if bi > 0 {
-				if tier == universe.Quick && bi > 1 && n%7 != 0 {
-					continue
+				if tier == universe.Quick && bi > 1 && (ri+bi)%4 != 0 {
+					continue // quick tier: every comment variant on every fourth rule, shifted by the variant's index
 				}
 				if !setBase(r, b) {
 					continue
@@ -197,7 +197,7 @@ func rulesMode(kind string, tier int) int {
 			rs = nonNil(rs)
 			bt := "plain"
 			if bi > 0 {
-				bt = []string{"", "comment", "file_inherit", "no-new-privs", "optional", "comment-with-comma", "comment-open-paren", "comment-var-quote"}[bi]
+				bt = []string{"", "comment", "file_inherit", "no-new-privs", "optional", "comment-with-comma", "comment-open-paren", "comment-var-quote", "comment-closing-brace"}[bi]
 			}
 			switch {
 			case perr != "":
